@@ -314,6 +314,7 @@ func cmdCheck(args []string) int {
 	broken := 0
 	nObl, nDis := 0, 0
 	var samples []interface{}
+	var knownList []string
 	var fnSummaries []interface{}
 	assume := map[string]bool{}
 	usedExterns := map[string]bool{}
@@ -369,6 +370,9 @@ func cmdCheck(args []string) int {
 			seen[o.Name] = true
 			if kf := matchKnown(known, prop, o.Name); kf != nil {
 				fmt.Printf("KNOWN-FINDING: property=%s %s [%s]\n", prop, kf.What, o.Name)
+				// a recorded finding is reported, not claimed: it is neither an obligation of the proof nor discharged
+				nObl--
+				knownList = append(knownList, o.Name)
 				continue
 			}
 			violations++
@@ -434,6 +438,7 @@ func cmdCheck(args []string) int {
 			"smt_queries":              st.queries,
 			"samples":                  samples,
 			"bounded":                  cfg.Bounded,
+			"known_findings_not_claimed": knownList,
 		},
 		"assumptions": assumptions,
 		"wall_s":      time.Since(start).Seconds(),
